@@ -8,9 +8,10 @@ import (
 	"go/parser"
 	"go/token"
 	"go/types"
-	"regexp"
 	"os"
 	"path/filepath"
+	"regexp"
+	"runtime"
 	"sort"
 	"strings"
 	"sync"
@@ -213,9 +214,9 @@ func parseKV(s string) map[string]string {
 }
 
 type CheckResult struct {
-	Code       int
-	Violations []string
-	Known      []string
+	Code                    int
+	Violations              []string
+	Known                   []string
 	Obligations, Discharged int
 }
 
@@ -231,6 +232,10 @@ func runCheckFull(o CheckOpts) (cr CheckResult) {
 	}
 	if o.Workers == 0 {
 		o.Workers = 16
+	}
+	// a machine that is already busy gets proportionally longer limits
+	if f := loadFactor(); f > 1 {
+		o.Timeout = time.Duration(float64(o.Timeout) * f)
 	}
 	if o.OutDir == "" {
 		o.OutDir = filepath.Join(verifDir, "out", o.Prop+"-"+o.Tier)
@@ -717,6 +722,32 @@ func verifyAll(prog *ssa.Program, ix fnIndex, mine []*Contract, all map[string]*
 		}(j)
 	}
 	wg.Wait()
+	// Phase 3: an obligation that was neither proved nor refuted (timeout,
+	// unknown) is tried once more with twice the limit and little
+	// competition for the cores, so that a loaded machine does not turn a
+	// proof that normally takes a second into an alarm. Known-finding halves
+	// and covers are not retried (they are expected not to be proved).
+	retry := make(chan struct{}, 6)
+	retryLimit := 2 * o.Timeout
+	if o.Tier == "thorough" {
+		retryLimit = o.Timeout
+	}
+	for _, j := range jobs {
+		r := results[j.idx]
+		if r.Verdict == "unsat" || r.Verdict == "sat" || j.ob.Known || j.ob.Kind == "cover" || strings.HasPrefix(r.Verdict, "error") {
+			continue
+		}
+		wg.Add(1)
+		retry <- struct{}{}
+		go func(j job) {
+			defer wg.Done()
+			defer func() { <-retry }()
+			r := solve(filepath.Join(o.OutDir, "smt"), j.e, j.ob, retryLimit)
+			r.Solver += "(retry)"
+			results[j.idx] = r
+		}(j)
+	}
+	wg.Wait()
 	for _, j := range jobs {
 		j.rep.Results = append(j.rep.Results, results[j.idx])
 	}
@@ -963,4 +994,22 @@ func stringTableKeys(p *packages.Package, name string) map[string]bool {
 		}
 	}
 	return nil
+}
+
+// loadFactor is 1-minute load average / number of CPUs, clamped to [1,4].
+func loadFactor() float64 {
+	b, err := os.ReadFile("/proc/loadavg")
+	if err != nil {
+		return 1
+	}
+	var l1 float64
+	fmt.Sscanf(string(b), "%f", &l1)
+	f := l1 / float64(runtime.NumCPU())
+	if f < 1 {
+		return 1
+	}
+	if f > 4 {
+		return 4
+	}
+	return f
 }
